@@ -11,6 +11,11 @@ CHECKS = {
    text="Theorems for every block size, disk size and history: a read returns the last accepted write (zeros otherwise), writes touch one register, Size is constant, refusals are exactly out-of-range/wrong-size and change nothing; the MemDisk model (list of blocks, Go copy semantics) and the FileDisk model (flat byte file, pread/pwrite at a*bs with the uint64 wrap written in) both refine that spec, hence agree. Tied to the code by regenerated function bodies/consts/types of machine/disk and machine/async_disk (kernel-checked Examples) and by running generated histories with client-side buffer aliasing on MemDisk, FileDisk, the async_disk aliases and the global wrappers against the extracted models.",
    note="Trusts Coq kernel, extraction, srcextract, the OCaml/Go drivers, the kernel's pread/pwrite on tmpfs. Aliasing ('never retains caller memory') is observable only on the Go side and is carried by the differential run, not by a theorem. ReadTo with a non-block-sized buffer is outside the property's quantifier (MemDisk copies a prefix, FileDisk panics; both mirrored).",
    ref="DESIGN.md §5 C09"),
+ "C11": dict(
+   technique="Coq proofs (open/ftruncate model for every prior image length; reopen refinement over all histories; verified checker `surfaces` for a fault semantics of regenerated statement skeletons) + per-run vm_compute obligations + reopen differential run + strace fault enumeration",
+   text="Theorems: NewFileDisk on an image of any prior length (or none) yields exactly n blocks with retained bytes preserved and new bytes zero; after any history, Close and reopen with any size, every later history behaves as the register array holding the last values written (zeros beyond the old size); and for ANY method body accepted by the proved checker `surfaces`, every path on which a system call fails ends in a panic or returns the error (all inputs, all fault sequences, loops unbounded). Per run the checker is evaluated by the kernel on the skeletons regenerated from machine/disk/file.go, the bodies the open model mirrors are compared, reopen histories run on the real FileDisk against the extracted model, and each (scenario, failing syscall, errno, occurrence) is executed under strace injection plus closed-descriptor and /dev/full cases.",
+   note="Trusts kernel/tmpfs, strace injection, srcextract's skeleton extraction; durability after power loss rests on the fsync contract (not producible here); short transfer counts without error are outside the property's fault catalogue. Model reflects /repo after the fix: commit for the byte/blocks size comparison in NewFileDisk.",
+   ref="DESIGN.md §5 C11"),
  "C15": dict(
    technique="Coq proof (generic little-endian put/get theorems by induction + lia) + per-run vm_compute obligations on regenerated function bodies + extracted-model differential run",
    text="Unbounded theorems in Coq about a model of encoding/binary's store/load sequences: frame, byte layout, Get∘Put, Put∘Get, refusal of short buffers, for every width, value and buffer. The model is tied to the code on every run by (R) regenerated function bodies of machine/prims.go checked by kernel-evaluated Examples and (C) a differential run of the real functions against the extracted model.",
